@@ -32,8 +32,8 @@ MIN_NONTRIVIAL = {'quick': 30, 'thorough': 300}
 def gen(rng, tier):
     n = 60 if tier == 'quick' else 2500
     out = [camx.gen_uamiv(rng) for _ in range(n)]
-    for _ in range(n // 2):
-        c = S.gen(rng)
+    for k_ in range(n // 2):
+        c = S.gen(rng, longspan=[None, None, 24, None, 12][k_ % 5])
         c['family'] = 'slab'
         c['vdtype'] = rng.choice(['f', 'f', 'd'])
         out.append(c)
